@@ -1,5 +1,5 @@
 from vlib.core import Query
-from gen.adaptive import aq, NAMES, U
+from gen.adaptive import aq, NAMES, U, bitmap_arm
 
 META = {
     "bounds": "(a) selection vs domain: arbitrary statistics with count a free variable up to 2^40 (every array length incl. the "
@@ -7,7 +7,7 @@ META = {
               "varintAdaptiveAnalyze truthful for n <= 3 symbolic elements; (c) each of the six encodings forced on n = 2 (quick) / "
               "n <= 3 (thorough) symbolic elements in its documented domain: header byte == encoding == meta, decode == input; (d) "
               "automatic Encode -> Decode end to end on n = 2, split by selected encoding (thorough: also n = 3 for tagged/delta/for)",
-    "outside": "the DICT arm through the adaptive dispatch (the SAT instance exceeds 36 GB; the dictionary codec itself is decided in C02/C03/C13/C14/C18, and automatic selection reaches DICT only for n >= 7); the BITMAP arm executed end to end through varintAdaptiveEncodeWith/Decode (symbolic execution through varintBitmapCreate/Add/Encode/Decode/ToArray inside the adaptive dispatch did not finish in 20 minutes even at the scaled container constants): for BITMAP the claim is the selection-vs-domain query (a) plus C08, which decides the bitmap container, its serialisation and ToArray on their own; payloads above 1 MiB (varintAdaptiveDecode passes a fixed 1 MiB length to the dict/bitmap decoders - a suspect from "
+    "outside": "the DICT arm through the adaptive dispatch (the SAT instance exceeds 36 GB; the dictionary codec itself is decided in C02/C03/C13/C14/C18, and automatic selection reaches DICT only for n >= 7); the BITMAP arm as ONE query through varintAdaptiveEncodeWith + Decode (symbolic execution through varintBitmapCreate/Add/Encode/Decode/ToArray inside the adaptive dispatch did not finish in 20 minutes even at the scaled container constants): the BITMAP arm is instead decided in two halves that meet at the explicit byte string (bitmap-arm-encode-*, bitmap-arm-decode-*), n <= 4; payloads above 1 MiB (varintAdaptiveDecode passes a fixed 1 MiB length to the dict/bitmap decoders - a suspect from "
                "reading, needs > 3*10^5 elements); arrays of more than 3 jointly symbolic elements through the real encoders",
     "assumptions": ["size-dispatch allocator, insertion-sort qsort stub, byte-loop mem* stubs",
                     "documented domain of forced BITMAP: strictly increasing values below 65536"],
@@ -22,6 +22,10 @@ def queries(tier):
     for f in (0, 1, 2, 5):   # BITMAP (4) and DICT (3) arms: see META "outside"
         for n in ((2,) if q else (1, 2, 3)):
             qs.append(aq("forced-%s-n%d" % (NAMES[f], n), {"N": n, "MODE": 0, "FORCE": f, "PROP": 6}))
+    # BITMAP arm: encoder against the explicit serialisation, decoder from that serialisation (transitivity gives the round trip)
+    for n in ((3,) if q else (1, 2, 3, 4)):
+        qs.append(bitmap_arm("bitmap-arm-encode-n%d" % n, {"N": n, "PART": 1}))
+        qs.append(bitmap_arm("bitmap-arm-decode-n%d" % n, {"N": n, "PART": 2}))
     for sel in (0, 1, 2, 5):
         for n in ((2,) if q else (2, 3)):
             qs.append(aq("auto-n%d-selects-%s" % (n, NAMES[sel]), {"N": n, "MODE": 1, "SEL": sel, "PROP": 6}, to=2400, weight=9))
